@@ -1,0 +1,111 @@
+//go:build verif
+
+package pmap
+
+import (
+	"cmp"
+	"fmt"
+)
+
+// This file is compiled only with the `verif` build tag. It gives the external
+// verification harness (in /verif) read-only access to the private tree of a Map so that
+// its shape can be compared with the formal model and its representation invariant
+// checked. Nothing here changes behaviour; nothing is compiled without the tag.
+
+// VerifCheck recomputes height and size of every subtree and compares them with the cached
+// fields, checks the AVL balance condition at every node and that an in-order walk sees
+// strictly increasing keys. It returns nil when all of that holds.
+func VerifCheck[K cmp.Ordered, V any](m Map[K, V]) error {
+	var (
+		prev    K
+		havePrev bool
+	)
+	var walk func(n *node[K, V]) (height, size int, err error)
+	walk = func(n *node[K, V]) (int, int, error) {
+		if n == nil {
+			return 0, 0, nil
+		}
+		lh, ls, err := walk(n.left)
+		if err != nil {
+			return 0, 0, err
+		}
+		if havePrev && !(prev < n.key) {
+			return 0, 0, fmt.Errorf("key order: %v does not sort before %v", prev, n.key)
+		}
+		prev, havePrev = n.key, true
+		rh, rs, err := walk(n.right)
+		if err != nil {
+			return 0, 0, err
+		}
+		h := lh
+		if rh > h {
+			h = rh
+		}
+		h++
+		s := ls + rs + 1
+		if n.height != h {
+			return 0, 0, fmt.Errorf("node %v: cached height %d, actual %d", n.key, n.height, h)
+		}
+		if n.size != s {
+			return 0, 0, fmt.Errorf("node %v: cached size %d, actual %d", n.key, n.size, s)
+		}
+		if d := lh - rh; d < -1 || d > 1 {
+			return 0, 0, fmt.Errorf("node %v: unbalanced, left height %d right height %d", n.key, lh, rh)
+		}
+		return h, s, nil
+	}
+	_, _, err := walk(m.root)
+	return err
+}
+
+// VerifPreorder returns the keys in preorder; together with the in-order walk this
+// determines the shape of the tree.
+func VerifPreorder[K cmp.Ordered, V any](m Map[K, V]) []K {
+	out := make([]K, 0, m.Len())
+	var walk func(n *node[K, V])
+	walk = func(n *node[K, V]) {
+		if n == nil {
+			return
+		}
+		out = append(out, n.key)
+		walk(n.left)
+		walk(n.right)
+	}
+	walk(m.root)
+	return out
+}
+
+// VerifHeight returns the cached height of the root.
+func VerifHeight[K cmp.Ordered, V any](m Map[K, V]) int { return m.root.treeHeight() }
+
+// VerifShared counts the nodes of b that are (by pointer) also nodes of a.
+func VerifShared[K cmp.Ordered, V any](a, b Map[K, V]) int {
+	seen := map[*node[K, V]]struct{}{}
+	var mark func(n *node[K, V])
+	mark = func(n *node[K, V]) {
+		if n == nil {
+			return
+		}
+		seen[n] = struct{}{}
+		mark(n.left)
+		mark(n.right)
+	}
+	mark(a.root)
+	count := 0
+	var walk func(n *node[K, V])
+	walk = func(n *node[K, V]) {
+		if n == nil {
+			return
+		}
+		if _, ok := seen[n]; ok {
+			count++
+		}
+		walk(n.left)
+		walk(n.right)
+	}
+	walk(b.root)
+	return count
+}
+
+// VerifSameRoot reports whether the two maps hold the very same root node.
+func VerifSameRoot[K cmp.Ordered, V any](a, b Map[K, V]) bool { return a.root == b.root }
